@@ -2,6 +2,7 @@ import Percival.Proofs.JsonSafe
 import Percival.Proofs.B64
 import Percival.Proofs.HexEndian
 import Percival.Proofs.SockLines
+import Percival.Proofs.ParsersStep
 /-! # C15 — parsers of untrusted text and bytes never touch memory outside their input
 
 Every model function below reads memory only through `Model.rd` (bounds-checked: a read outside the object it was
@@ -156,5 +157,135 @@ theorem readpass_file_safe (init : Buf) (hsz : 2 ≤ init.size) (file : List UIn
 /-- "ab\r\n" in an 8-byte buffer, and an over-long line -/
 example : readpassFile (Array.replicate 8 0xaa) [0x61, 0x62, 0x0d, 0x0a] = .ok (some [0x61, 0x62]) ∧
     readpassFile (Array.replicate 4 0xaa) [0x61, 0x62, 0x63, 0x64, 0x0a] = .ok none := by decide +kernel
+
+/-! ## The executable: `Model.ParsersStep.stepOp`, the function `pmodel parsers` runs on every protocol line
+
+For every op family of the `parsers` component whose L1 part is the verdict `inrange`: for EVERY input the answer of
+`stepOp` is `Ranged.inrange …` / a model outcome `Res.ok …` inside the documented range — never `oob`, `nofuel` or
+`outOfRange`.  These are the theorems above instantiated at exactly the calls `stepOp` makes (`cbytes` = the C string
+a token stands for: the bytes before its first NUL). -/
+open Percival.Model.ParsersStep
+
+/-- `jfind`: for every buffer and key token the answer is `inrange j` with `j` in `[0, |doc|]`. -/
+theorem exec_jfind (doc key : List UInt8) : ∃ j, stepOp (.jfind doc key) = .jfind (.inrange j) ∧ j ≤ doc.length := by
+  obtain ⟨j, h, hj⟩ := json_find_safe doc.toArray (cbytes key)
+  have hj' : j ≤ doc.length := by simpa using hj
+  exact ⟨j, by simp only [stepOp, h, ranged, decide_eq_true hj', if_true], hj'⟩
+/-- the F5 input with the key token `k\0k` -/
+example : stepOp (.jfind [0x7b, 0x22, 0x78, 0x22, 0x3a, 0x7b, 0x22, 0x61, 0x22, 0x3a, 0x31, 0x2c] [0x6b, 0x00, 0x6b]) =
+    .jfind (.inrange 12) := by decide +kernel
+
+/-- `skipv` at any offset inside the buffer (or at its end): the answer is `inrange j` with `j` in `[off, |doc|]`. -/
+theorem exec_skipv (doc : List UInt8) (off : Nat) (h : off ≤ doc.length) :
+    ∃ j, stepOp (.skipv doc off) = .skipv (.inrange j) ∧ off ≤ j ∧ j ≤ doc.length := by
+  obtain ⟨j, hj, h1, h2⟩ := (json_helpers_safe doc.toArray off (by simpa using h)).2.2.2.1
+  have h2' : j ≤ doc.length := by simpa using h2
+  exact ⟨j, by simp only [stepOp, hj, ranged, decide_eq_true (And.intro h1 h2'), if_true], h1, h2'⟩
+/-- 10 unbalanced `[` -/
+example : stepOp (.skipv [0x5b, 0x5b, 0x5b, 0x5b, 0x5b, 0x5b, 0x5b, 0x5b, 0x5b, 0x5b] 0) = .skipv (.inrange 10) := by
+  decide +kernel
+
+/-- `b64dec` on any block: the model's outcome is `ok`, and an accepted text has stored exactly `(|inp| / 4) * 3`
+    bytes with `*outlen` at most that. -/
+theorem exec_b64dec_inrange (inp : List UInt8) :
+    ∃ l1 r, stepOp (.b64dec inp) = .b64dec l1 (.ok r) ∧
+      ∀ w n, r = some (w, n) → w.length = 3 * (inp.length / 4) ∧ n ≤ w.length := by
+  obtain ⟨r, h, hr⟩ := b64decode_safe inp.toArray
+  rw [List.size_toArray] at h hr
+  exact ⟨_, r, by simp only [stepOp, h]; rfl, hr⟩
+example : stepOp (.b64dec [0x41, 0x00, 0x41, 0x41]) = .b64dec none (.ok none) := by decide +kernel
+
+/-- `unhex` on the C string of any token, for any `len`: the model's outcome is `ok`, and on success exactly `len`
+    bytes were stored. -/
+theorem exec_unhex_inrange (inp : List UInt8) (len : Nat) :
+    ∃ l1 r, stepOp (.unhex inp len) = .unhex l1 (.ok r) ∧ ∀ w, r = some w → w.length = len := by
+  obtain ⟨r, h, hr⟩ := unhexify_safe (cbytes inp) (Proofs.ParsersStep.cbytes_ne0 inp) len
+  exact ⟨_, r, by simp only [stepOp, h]; rfl, hr⟩
+/-- `len` three times the string's length -/
+example : stepOp (.unhex [0x61, 0x62] 3) = .unhex none (.ok none) := by decide +kernel
+
+/-- `unhexb` within its contract (`2 * len ≤ |inp|`, a block without terminator): likewise. -/
+theorem exec_unhexb_inrange (inp : List UInt8) (len : Nat) (h : 2 * len ≤ inp.length) :
+    ∃ l1 r, stepOp (.unhexb inp len) = .unhexb l1 (.ok r) ∧ ∀ w, r = some w → w.length = len := by
+  obtain ⟨r, hr, hw⟩ := unhexify_safe_block inp.toArray len (by simpa using h)
+  exact ⟨_, r, by simp only [stepOp, if_neg (Nat.not_lt.mpr h), hr]; rfl, hw⟩
+example : stepOp (.unhexb [0x61, 0x00, 0x63, 0x64] 2) = .unhexb none (.ok none) := by decide +kernel
+
+/-- `sdes` on an arbitrary block: the answer is `inrange`: NULL, or an address whose name block has exactly `namelen`
+    bytes, the bytes after the 12-byte header. -/
+theorem exec_sdes (buf : List UInt8) :
+    ∃ r, stepOp (.sdes buf) = .sdes (.inrange r) ∧
+      ∀ a, r = some a → a.WF ∧ buf.length = 12 + a.namelen.toNat ∧ a.name.toList = buf.drop 12 := by
+  obtain ⟨r, h, hr⟩ := sock_addr_deserialize_safe buf.toArray
+  rw [List.size_toArray] at h hr
+  refine ⟨r, ?_, hr⟩
+  have hok : sdesOk buf.length r = true := by
+    cases r with
+    | none => rfl
+    | some a =>
+      obtain ⟨h1, h2, _⟩ := hr a rfl
+      unfold SockAddr.WF at h1
+      exact decide_eq_true ⟨h1, by omega⟩
+  simp only [stepOp, h, ranged, hok, if_true]
+/-- a length field of 2^32 - 1 on a 13-byte block; a one-byte name -/
+example : stepOp (.sdes [2, 0, 0, 0, 1, 0, 0, 0, 0xff, 0xff, 0xff, 0xff, 7]) = .sdes (.inrange none) ∧
+    stepOp (.sdes [2, 0, 0, 0, 1, 0, 0, 0, 1, 0, 0, 0, 7]) =
+      .sdes (.inrange (some { family := 2, socktype := 1, namelen := 1, name := #[7] })) := by decide +kernel
+
+/-- `ensure` on the C string `s` of any token: the model's outcome is `ok`, the string itself or `s ++ ":0"`. -/
+theorem exec_ensure (addr : List UInt8) :
+    ∃ r, stepOp (.ensure addr) = .ensure (.ok r) ∧ (r = cbytes addr ∨ r = cbytes addr ++ [0x3a, 0x30]) := by
+  obtain ⟨r, h, hr⟩ := (sock_text_parsers_safe (fun _ => none) (fun _ => none) (cbytes addr)
+    (Proofs.ParsersStep.cbytes_ne0 addr)).2
+  exact ⟨r, by simp only [stepOp, h], hr⟩
+/-- `[::1]` -/
+example : stepOp (.ensure [0x5b, 0x3a, 0x3a, 0x31, 0x5d]) = .ensure (.ok [0x5b, 0x3a, 0x3a, 0x31, 0x5d, 0x3a, 0x30]) := by
+  decide +kernel
+
+/-- `awskeys` on a file with any content (the line buffer has its size in the source, filled with 0xaa): the model's
+    outcome is `ok`: failure, or two strings without NUL/CR/LF shorter than the buffer. -/
+theorem exec_awskeys (file : List UInt8) :
+    ∃ r, stepOp (.awskeys file) = .awskeys (.ok r) ∧
+      ∀ id secret, r = .keys id secret → id.length < CodecTables.awsLineBuf ∧ secret.length < CodecTables.awsLineBuf ∧
+        ∀ c ∈ id ++ secret, c ≠ 0 ∧ c ≠ 0x0a ∧ c ≠ 0x0d := by
+  obtain ⟨r, h, hr⟩ := aws_readkeys_safe (Array.replicate CodecTables.awsLineBuf 0xaa)
+    (by rw [Array.size_replicate]; exact gen_linebufs.1) file
+  rw [Array.size_replicate] at hr
+  exact ⟨r, by simp only [stepOp, h], hr⟩
+/-- `ACCESS_KEY_ID=A\nACCESS_KEY_SECRET=B\n` -/
+example : stepOp (.awskeys ("ACCESS_KEY_ID=A\nACCESS_KEY_SECRET=B\n".toUTF8.toList)) = .awskeys (.ok (.keys [0x41] [0x42])) := by
+  decide +kernel
+
+/-- `readpass` on a file with any content: the model's outcome is `ok`: failure, or a passphrase without NUL/CR/LF
+    shorter than `MAXPASSLEN`. -/
+theorem exec_readpass (file : List UInt8) :
+    ∃ r, stepOp (.readpass file) = .readpass (.ok r) ∧
+      ∀ pw, r = some pw → pw.length < CodecTables.maxPassLen ∧ ∀ c ∈ pw, c ≠ 0 ∧ c ≠ 0x0a ∧ c ≠ 0x0d := by
+  obtain ⟨r, h, hr⟩ := readpass_file_safe (Array.replicate CodecTables.maxPassLen 0xaa)
+    (by rw [Array.size_replicate]; exact gen_linebufs.2) file
+  rw [Array.size_replicate] at hr
+  exact ⟨r, by simp only [stepOp, h], hr⟩
+/-- `ab\r\n` -/
+example : stepOp (.readpass [0x61, 0x62, 0x0d, 0x0a]) = .readpass (.ok (some [0x61, 0x62])) := by decide +kernel
+
+/-- `sres` on the C string of any token (with `Spec.Inet` in the place of `inet_pton` / `inet_ntop`): resolving never
+    reads outside the string and ends; the answer is `err`, `host`, or an address — and then `sock_addr_prettyprint`
+    of that address reads only inside its name block and yields a text (never `oob`, `nofuel`, or NULL). -/
+theorem exec_sres (addr : List UInt8) :
+    stepOp (.sres addr) = .sres .err ∨ stepOp (.sres addr) = .sres .host ∨
+      ∃ a text again, stepOp (.sres addr) = .sres (.addr a text again) := by
+  rcases Proofs.ParsersStep.sres_safe (cbytes addr) (Proofs.ParsersStep.cbytes_ne0 addr) with h | h | ⟨a, t, g, h⟩
+  · exact Or.inl (by simp only [stepOp, h])
+  · exact Or.inr (Or.inl (by simp only [stepOp, h]))
+  · exact Or.inr (Or.inr ⟨a, t, g, by simp only [stepOp, h]⟩)
+/-- `[`, `a.b:80`, and `/tmp/s` followed by a NUL and junk -/
+example : stepOp (.sres [0x5b]) = .sres .err ∧ stepOp (.sres "a.b:80".toUTF8.toList) = .sres .host ∧
+    stepOp (.sres "/tmp/s\x00junk".toUTF8.toList) = .sres (.addr (mkUn "/tmp/s".toUTF8.toList) "/tmp/s".toUTF8.toList true) := by
+  decide +kernel
+
+/-- `humansize` / `parsenum` / `getopt` lines (modelled by C16 / C18): `stepOp` only echoes the op; the real code
+    runs under ASan, nothing is compared beyond the word `inrange`. -/
+theorem exec_observed (o : Observed) : stepOp (.observed o) = .observed o := rfl
+example : stepOp (.observed .getopt) ≠ .ooc := by decide
 
 end Percival.C15
